@@ -52,6 +52,22 @@ def replace (a : Arc κ ν) (hitB2 : Bool) : Res (Arc κ ν × List (Obj κ ν))
       | .error f => .error f
       | .ok (res, b2') => .ok ({ a with frequent := f', frequentEvict := b2' }, res.drops)
 
+/-- `if recent_evict_len > self.size - self.p { self.recent_evict.remove_lru(); }` -/
+def trimRecentGhost (a : Arc κ ν) (b1 : Nat) : Arc κ ν × List (Obj κ ν) :=
+  if b1 > a.size - a.p then
+    match a.recentEvict.removeLru with
+    | (b1', some e, _) => ({ a with recentEvict := b1' }, dropEnt e)
+    | (_, none, _) => (a, [])
+  else (a, [])
+
+/-- `if freq_evict_len > self.p { self.frequent_evict.remove_lru(); }` -/
+def trimFrequentGhost (a : Arc κ ν) (b2 : Nat) : Arc κ ν × List (Obj κ ν) :=
+  if b2 > a.p then
+    match a.frequentEvict.removeLru with
+    | (b2', some e, _) => ({ a with frequentEvict := b2' }, dropEnt e)
+    | (_, none, _) => (a, [])
+  else (a, [])
+
 /-- `Cache::put` (adaptive.rs:327, repaired: the ghost entry is unlinked before `replace`) -/
 def put (a : Arc κ ν) (k : κ) (v : ν) : Res (PutResult κ ν × Arc κ ν × List (Obj κ ν)) :=
   match a.recent.removeEnt k with
@@ -98,18 +114,10 @@ def put (a : Arc κ ν) (k : κ) (v : ν) : Res (PutResult κ ν × Arc κ ν ×
     | .ok (a1, d) =>
       -- keep the ghost lists trim; lengths are the ones captured before `replace`
       if a1.size < a1.p then .error (.overflow "arc size - p") else
-      let (a2, d2) :=
-        if b1 > a1.size - a1.p then
-          match a1.recentEvict.removeLru with
-          | (b1', some e, _) => ({ a1 with recentEvict := b1' }, dropEnt e)
-          | (_, none, _) => (a1, [])
-        else (a1, [])
-      let (a3, d3) :=
-        if b2 > a2.p then
-          match a2.frequentEvict.removeLru with
-          | (b2', some e, _) => ({ a2 with frequentEvict := b2' }, dropEnt e)
-          | (_, none, _) => (a2, [])
-        else (a2, [])
+      match a1.trimRecentGhost b1 with
+      | (a2, d2) =>
+      match a2.trimFrequentGhost b2 with
+      | (a3, d3) =>
       match a3.recent.put k v with
       | .error f => .error f
       | .ok (r', res, e) => .ok (res, { a3 with recent := r' }, d ++ d2 ++ d3 ++ e.drops)
